@@ -73,13 +73,12 @@ func (m *manager) get(key string) *item {
 	if m.storage != nil {
 		it = m.acquire()
 		raw, err := m.storage.Get(key)
-		if err != nil {
-			return it
+		if err != nil || raw == nil {
+			// no entry: as with the memory storage
+			return nil
 		}
-		if raw != nil {
-			if _, err := it.UnmarshalMsg(raw); err != nil {
-				return it
-			}
+		if _, err := it.UnmarshalMsg(raw); err != nil {
+			return nil
 		}
 		return it
 	}
